@@ -17,6 +17,10 @@ type pathEnum struct {
 	Body   map[*ssa.BasicBlock]bool
 	Instr  func(ssa.Instruction) int
 	Edge   func(b *ssa.BasicBlock, s int) int
+	// Maybe: the instruction may or may not perform the event and nothing in
+	// the CFG tells which (a select whose chosen case is not tested): the
+	// path forks into both counts.
+	Maybe  func(ssa.Instruction) bool
 	Budget int
 }
 
@@ -40,16 +44,28 @@ func (p *pathEnum) Run() pathResult {
 		}
 	}
 	var walk func(b *ssa.BasicBlock, n int, trace []int)
+	var from func(b *ssa.BasicBlock, i int, n int, trace []int)
 	walk = func(b *ssa.BasicBlock, n int, trace []int) {
 		if budget <= 0 {
 			res.overflow = true
 			return
 		}
 		budget--
-		trace = append(trace, b.Index)
-		for _, in := range b.Instrs {
+		from(b, 0, n, append(trace, b.Index))
+	}
+	from = func(b *ssa.BasicBlock, i int, n int, trace []int) {
+		for ; i < len(b.Instrs); i++ {
+			in := b.Instrs[i]
 			if p.Instr != nil {
 				n += p.Instr(in)
+			}
+			if p.Maybe != nil && p.Maybe(in) {
+				if budget <= 0 {
+					res.overflow = true
+					return
+				}
+				budget--
+				from(b, i+1, n+1, trace)
 			}
 			switch in.(type) {
 			case *ssa.Return:
@@ -139,4 +155,42 @@ func selectSendEdge(b *ssa.BasicBlock, s int, isChan, isVal func(ssa.Value) bool
 	}
 	st := sel.States[k]
 	return st.Send != nil && isChan(st.Chan) && isVal(st.Send)
+}
+
+// selectSendUntested: a select that may send a matching value on a matching
+// channel, while no branch of the CFG tests whether that case was chosen.
+func selectSendUntested(in ssa.Instruction, isChan, isVal func(ssa.Value) bool) bool {
+	sel, ok := in.(*ssa.Select)
+	if !ok {
+		return false
+	}
+	for k, st := range sel.States {
+		if st.Send == nil || !isChan(st.Chan) || !isVal(st.Send) {
+			continue
+		}
+		tested := false
+		for _, ref := range *sel.Referrers() {
+			ex, ok := ref.(*ssa.Extract)
+			if !ok || ex.Index != 0 {
+				continue
+			}
+			for _, r2 := range *ex.Referrers() {
+				cmp, ok := r2.(*ssa.BinOp)
+				if !ok || cmp.Op.String() != "==" {
+					continue
+				}
+				if kk, isC := constInt(cmp.Y); isC && int(kk) == k {
+					for _, r3 := range *cmp.Referrers() {
+						if ifi, isIf := r3.(*ssa.If); isIf && ifi.Block().Succs[0] != ifi.Block().Succs[1] {
+							tested = true
+						}
+					}
+				}
+			}
+		}
+		if !tested {
+			return true
+		}
+	}
+	return false
 }
